@@ -1,7 +1,74 @@
 import TTV.Sexp
-/-! Driver glue for C07 — stub, replaced when the property's model is built. -/
+import TTV.Model.Describe
+import TTV.Spec.C07
+import TTV.Drv.C06
+/-! Driver glue for C07.  Inputs
+  `(describe <m> <v> <annotated> <verbose>)`        matcher / value grammar of `TTV.Drv.C06`
+  `(textrepr <isBytes> <ml> (np…) (c…))`             ml = `none` | `(some T|F)`
+  `(assert <api> ((base suffix)…) <mismatch>)`       mismatch = `none` | `(some (d…))`
+Traces
+  `(describe <str> <matched> <describe> <details> <errStr>)`   result = `ok` | `(raised Cls)`
+  `(textrepr (out…) <back> (repr…) <reprBack>)`                back = `none` | `(some (c…))`
+  `(assert <raised> <continued> ((base suffix)…) <forceFailure> <outcome>)` -/
 namespace TTV.Drv.C07
-open TTV
+open TTV TTV.Sexp TTV.Describe
+open TTV.Matchers (Verdict ExcCls)
 
-def handle (_ : List Sexp) : Sexp := .atom "unimplemented"
+def r? : Sexp → Option R
+  | .atom "ok" => some none
+  | .list [.atom "raised", c] => (C06.excCls? c).map some
+  | _ => none
+def ofR : R → Sexp
+  | none => .atom "ok"
+  | some c => tag "raised" [C06.ofExcCls c]
+
+def name? : Sexp → Option Name
+  | .list [b, s] => do some ⟨← nat? b, ← nat? s⟩
+  | _ => none
+def ofName (n : Name) : Sexp := .list [ofNat n.base, ofNat n.suffix]
+
+def api? : Sexp → Option Api
+  | .atom "assertThat" => some .assertThat | .atom "assert_that" => some .assert_that
+  | .atom "expectThat" => some .expectThat
+  | _ => none
+def outcome? : Sexp → Option Outcome
+  | .atom "success" => some .success | .atom "failure" => some .failure | .atom "error" => some .error
+  | _ => none
+def ofOutcome : Outcome → Sexp
+  | .success => .atom "success" | .failure => .atom "failure" | .error => .atom "error"
+
+def input? : Sexp → Option Input
+  | .list [.atom "describe", m, v, a, vb] => do
+      some (.describe (← C06.m? m) (← C06.v? v) (← bool? a) (← bool? vb))
+  | .list [.atom "textrepr", b, ml, np, s] => do
+      some (.textRepr (← bool? b) (← opt? bool? ml) (← list? nat? np) (← list? nat? s))
+  | .list [.atom "assert", api, ex, mm] => do
+      some (.assert { api := ← api? api, existing := ← list? name? ex, mismatch := ← opt? (list? nat?) mm })
+  | _ => none
+
+def trace? : Sexp → Option Trace
+  | .list [.atom "describe", s, m, d, g, e] => do
+      some (.describe (← r? s) (← C06.verdict? m) (← r? d) (← r? g) (← r? e))
+  | .list [.atom "textrepr", o, b, r, rb] => do
+      some (.textRepr (← list? nat? o) (← opt? (list? nat?) b) (← list? nat? r) (← opt? (list? nat?) rb))
+  | .list [.atom "assert", r, c, ns, ff, o] => do
+      some (.assert { raised := ← bool? r, continued := ← bool? c, names := ← list? name? ns,
+                      forceFailure := ← bool? ff, outcome := ← outcome? o })
+  | _ => none
+
+def ofTrace : Trace → Sexp
+  | .describe s m d g e => tag "describe" [ofR s, C06.ofVerdict m, ofR d, ofR g, ofR e]
+  | .textRepr o b r rb => tag "textrepr" [ofList ofNat o, ofOpt (ofList ofNat) b, ofList ofNat r, ofOpt (ofList ofNat) rb]
+  | .assert o => tag "assert" [ofBool o.raised, ofBool o.continued, ofList ofName o.names, ofBool o.forceFailure,
+                               ofOutcome o.outcome]
+
+def drv : PropDrv Input Trace :=
+  { decI := input?, decT := trace?, encT := ofTrace, model := model, clauses := Spec.C07.clauses,
+    classes := Spec.C07.classes }
+
+/-- see `TTV.Drv.C06.handle`: inside a known-finding class the model exhibits the defect -/
+def handle (args : List Sexp) : Sexp :=
+  match drv.handle args with
+  | .list [mt, si, _, .list (c :: cs)] => .list [mt, si, .atom "ok", .list (c :: cs)]
+  | r => r
 end TTV.Drv.C07
